@@ -79,7 +79,7 @@ _EXTRA2 = {
  'C05': ' Plus the four wrapper legs in their liquidation modes at kernel level with native replay (C05.f: a seizure within the deposit never creates a debt; debit/credit within rounding of the computed amounts) and the constraint set of the liquidate instruction (C05.e).',
  'C07': ' Plus the bankruptcy handler end to end in handler mode (C07.b: authorisation, debt read from the active position of THIS bank, insurance first = min(bad debt, insurance available) rounded up (or its pre-fee image), socialized remainder, exactly the bad debt repaid, route insurance vault -> liquidity vault, account disabled, bank killed iff wiped out), settlement of a wiped-out bank cannot revert (C07.d), killed state terminal on the frozen configuration path too (C07.e.frozen), constraint set (C07.g).',
  'C10': ' Plus the four bracket instructions\' own wiring (C10.e: receiver key, deleverage flag, discriminator pair, ignore_healthy, error propagation) and the constraint sets of the bracket / inner instructions (C10.h).',
- 'C11': ' Plus the constraint sets of the two flash-loan instructions (C11.g).',
+ 'C11': ' Plus the constraint sets of the two flash-loan instructions (C11.g) and the health decision the end instruction relies on, for any health-cache option incl. None (C11.h).',
  'C12': ' Plus the daily deleverage window kernel update_withdrawn_equity for all timestamps and counters with native replay (C12.d.window) and the signer-role constraint sets of every delegated-admin instruction (C12.r).',
  'C13': ' Plus the six bank initialisers validate the bank they wrote (C13.d.add_bank*), the killed state is terminal on both configuration paths (C13.e), constraint sets (C13.g).',
  'C15': ' Plus the constraint sets of the four pause instructions (C15.d).',
